@@ -201,15 +201,7 @@ pub fn check_state(repo: &Repo, fmt: &str, cx: &mut Cx) -> Res {
     // --- what git ignores is decided by the user's configuration too: a file excluded only by the
     // global core.excludesFile (editor backups, .DS_Store) is not a change
     if fmt == "auto" {
-        let root = std::env::var("VERIF_ROOT").unwrap_or_else(|_| "/verif".into());
-        let cfgdir = std::path::Path::new(&root).join(".cache").join("gitcfg");
-        let cfg = cfgdir.join("gitconfig");
-        static CFG_ONCE: std::sync::Once = std::sync::Once::new();
-        CFG_ONCE.call_once(|| {
-            let _ = std::fs::create_dir_all(&cfgdir);
-            let _ = std::fs::write(cfgdir.join("ignore"), "*.globalign\n");
-            let _ = std::fs::write(&cfg, format!("[core]\n\texcludesFile = {}\n", cfgdir.join("ignore").display()));
-        });
+        let cfg = crate::gitlab::global_excludes_config();
         let f = repo.dir.join("editor-backup.globalign");
         if std::fs::write(&f, "x\n").is_ok() {
             let o3 = proc::run(&proc::Spec {
